@@ -36,7 +36,7 @@ FU = 'utils.func_utils'
 
 
 def run(ctx: Ctx):
-  for r in (r1, r2, r3, r4, r5, r6):
+  for r in (r1, r2, r3, r4, r5, r6, r7):
     ctx.guard(r)
 
 
@@ -515,11 +515,60 @@ def r6(ctx: Ctx):
   ctx.floor(rule, 3, n)
 
 
+def _truth_positions(fn):
+  for x in ast.walk(fn):
+    if isinstance(x, (ast.If, ast.While, ast.IfExp)):
+      yield x.test
+    if isinstance(x, ast.BoolOp):
+      yield from x.values
+    if isinstance(x, ast.UnaryOp) and isinstance(x.op, ast.Not):
+      yield x.operand
+    if isinstance(x, ast.comprehension):
+      yield from x.ifs
+    if isinstance(x, ast.Assert):
+      yield x.test
+
+
+def r7(ctx: Ctx):
+  rule = 'R-C17-7'
+  ctx.rule(rule, '"any nesting of traced callables, arguments ..." — a traced VALUE can be'
+           ' anything (an ndarray, a DataFrame, 0, an empty list): the wrapped value'
+           ' (`<x>.value` of LazyObject / LazyFn) is never used in a truth position (if /'
+           ' not / and / or / assert / comprehension filter); presence is tested with'
+           ' `is None`. bool() of a multi-element array raises, bool() of 0 or [] is False:'
+           ' a truthiness test makes materialisation (and the log line the cached path'
+           ' formats) fail or take the wrong branch for exactly those values')
+  mi = ctx.repo.module(LF)
+  fns = list(mi.functions.values()) + [m_ for c in mi.classes.values() for m_ in c.methods.values()]
+  n = 0
+  reads = 0
+  for fi in fns:
+    reads += sum(1 for x in ast.walk(fi.node) if isinstance(x, ast.Attribute) and x.attr == 'value'
+                 and isinstance(x.ctx, ast.Load))
+    for t in _truth_positions(fi.node):
+      while isinstance(t, ast.UnaryOp) and isinstance(t.op, ast.Not):
+        t = t.operand
+      if isinstance(t, ast.Attribute) and t.attr == 'value':
+        n += 1
+        ctx.fail(rule, fi, f'{fi.qualname}: the wrapped value is tested with `is None`, not by truthiness',
+                 f'`{unparse(t)}` stands in a truth position: for a traced ndarray bool() raises "truth value'
+                 ' of an array is ambiguous", for 0 / [] / \'\' it is False although a value is present', node=t)
+  if reads < 5:
+    raise AnalysisError(f'{rule}: only {reads} reads of `.value` in lazy_fns (anchor changed)')
+  if not n:
+    ctx.ok(rule, fns[0], f'{reads} reads of `.value` in lazy_fns, none in a truth position', mi.tree if hasattr(mi, "tree") else fns[0].node)
+  ctx.floor(rule, 1)
+
+
 from mlmverif.selfcheck import B, OK  # noqa: E402
 
 _L = 'chainables/lazy_fns.py'
 _F = 'utils/func_utils.py'
 VARIANTS = [
+    B('wrapped-value-tested-by-truthiness', 'chainables/lazy_fns.py',
+      "    if self.value is None:\n      return f'LazyObject(id={self.id})'", "    if not self.value:\n      return f'LazyObject(id={self.id})'", 'R-C17-7'),
+    OK('wrapped-value-presence-inverted', 'chainables/lazy_fns.py',
+       "    if self.value is None:\n      return f'LazyObject(id={self.id})'", "    if not (self.value is not None):\n      return f'LazyObject(id={self.id})'"),
     B('args-before-callee', _L,
       '      fn = _maybe_make(self.value)\n      if not callable(fn):\n        raise TypeError(f\'fn is not callable from {self}.\')\n      args = tuple(_maybe_make(arg) for arg in self.args)\n      kwargs = {k: _maybe_make(v) for k, v in self.kwargs}',
       '      args = tuple(_maybe_make(arg) for arg in self.args)\n      kwargs = {k: _maybe_make(v) for k, v in self.kwargs}\n      fn = _maybe_make(self.value)\n      if not callable(fn):\n        raise TypeError(f\'fn is not callable from {self}.\')',
